@@ -630,6 +630,19 @@ Proof.
   - eapply ordered_deps_before; eauto.
 Qed.
 
+(* every task of a computed run order is defined *)
+Theorem run_order_defined req o : run_order pick ds req = GOk o -> forall x, In x o -> lookup ds x <> None.
+Proof.
+  unfold run_order. destruct (has_dup (map fst ds)); [discriminate|].
+  pose proof (build_graph_ok ds req) as B. destruct (build_graph ds req) as [g|e]; [|discriminate].
+  destruct B as (HI & Hv & He).
+  assert (WF : forall a b, In (a, b) (edges g) -> In a (verts g) /\ In b (verts g)).
+  { intros a b H. destruct HI as [_ _ C]. destruct (C a b H) as (X & Y & _). auto. }
+  destruct (kahn_sound pick pick_perm g WF (gi_nodup ds g HI)) as [(o' & rem' & E & K)|E]; rewrite E; [|discriminate].
+  destruct (Nat.eqb (length o') (length (verts g))); [|discriminate]. intros X. inversion X; subst o'. clear X.
+  destruct K as [_ _ _ _ Hsub]. rewrite app_nil_r in Hsub. intros x Hx. apply (gi_def ds g HI). apply Hsub. exact Hx.
+Qed.
+
 Definition err_ok (req : list name) (e : gerr) : Prop :=
   match e with
   | EDuplicate => ~ NoDup (map fst ds)
